@@ -165,10 +165,20 @@ def render_names(text, info, model, table):
     return ''.join(rs)
 
 
+EXPLORE_BUDGET_S = {'quick': 90.0, 'thorough': 600.0}
+
+
 def explore(asm, fn, max_paths=400):
+    """all feasible paths of fn; a wall-clock budget per exploration keeps one exploding text from stalling the whole check
+    (the text is then inconclusive, the budget is part of the stated bounds)"""
     ctl = PathCtl(asm, max_paths=max_paths)
+    t0 = time.time()
+    budget = EXPLORE_BUDGET_S.get(os.environ.get('VERIF_TIER_EFFECTIVE', 'quick'), 90.0)
+    ctl.deadline = t0 + budget
 
     def run(c):
+        if time.time() - t0 > budget:
+            raise Unsupported('exploration exceeds %ds of wall clock (path explosion)' % budget)
         try:
             return ('ok', fn(c))
         except GoPanic as gp:
@@ -547,6 +557,44 @@ def c13_text(t, dump, tier):
                                 'two runs give different output for %s (choice: %s), e.g. text %s' % (names[:3], d, t.tag), {'text': t.text, 'files': names[:5]}))
     if bases and t.tag != 'p:snake_collide':
         validate_native(t, stats, gens=bases)
+    # "the same set of files": compiling a second time into the directories the first run filled must leave exactly the
+    # first run's files (default map order both times; the second process finds the first one's files, newer than the DSL)
+    if bases and (tier == 'thorough' or t.tag.startswith(('g:', 'a:combined', 'a:match_two', 'a:idents'))):
+        try:
+            fss = []
+            prev = None
+            for rnd in (1, 2):
+                M = make_machine(PathCtl())
+                snap = Snapshot(prog, dump).load()
+                m = M.call(PARSER + '.VerifVisit', [snap.tree])
+                if syntax_errors(M, m):
+                    break
+                M.env['parse_result'] = m
+                M.env['fs_readable'] = True
+                if prev is not None:
+                    M.env['fs'].update(prev)
+                M.effects = []
+                M.stdout = []
+                outs = GoMap()
+                for g in GENS:
+                    outs.set(go_str(g), go_str('/out/' + g))
+                err = M.call(MOD + '/cmd.Compile', [go_str('in.dsl'), outs])
+                if err is not None:
+                    break
+                prev = dict(M.env['fs'])
+                fss.append(prev)
+            stats['paths'] += len(fss)
+            if len(fss) == 2 and fss[0] != fss[1]:
+                extra = sorted(set(fss[1]) - set(fss[0]))
+                miss = sorted(set(fss[0]) - set(fss[1]))
+                diff = sorted(k for k in set(fss[0]) & set(fss[1]) if fss[0][k] != fss[1][k])
+                res.append(BFinding('C13', 'cmd:compile', t.tag, 'nondet:recompile-' + ('extra-files' if extra else 'missing-files' if miss else 'bytes'),
+                                    'compiling twice into the same directories: second run leaves extra %s, removes %s, changes %s' % (
+                                        [re.sub(r'RND\d+', 'RND', x) for x in extra[:3]], miss[:3], diff[:3]), {'text': t.text}))
+        except GoPanic:
+            pass
+        except Unsupported as u:
+            stats['inconclusive'].append('recompile: %s' % str(u)[:150])
     return res, stats
 
 
@@ -957,6 +1005,7 @@ EXPLAIN = {
 
 def main(prop, tier, update_known=False, replay=None):
     t0 = time.time()
+    os.environ['VERIF_TIER_EFFECTIVE'] = tier
     seed = int(os.environ.get('VERIF_SEED', '0') or 0)
     if prop not in TEXT_FUNCS and prop not in EXTRA:
         print('property %s is not implemented by this engine' % prop)
